@@ -43,13 +43,31 @@ theorem skel_GenerateChallenge : Skel.GenerateChallenge = ["rand.Read", "hex.Enc
 
 /-- session layer: parse, get-or-create, handler, respond, then (guarded) look up the old connection, remove it, `UpdateAuth` -/
 theorem skel_handleHandshake : Skel.C03_handleHandshake =
-    ["json.Unmarshal", "getControlConnectionByConnID", "getConnectionByConnID", "NewControlConnection",
-     "RegisterControlConnection", "getControlConnectionByConnID", "getConnectionByConnID", "NewControlConnection",
-     "RegisterControlConnection", "authHandler.HandleHandshake", "sendHandshakeResponse", "sendHandshakeResponse",
-     "clientRegistry.GetByClientID", "clientRegistry.Remove", "clientRegistry.UpdateAuth", "getConnectionByConnID",
+    ["json.Unmarshal",
+     "getControlConnectionByConnID",
+     "getConnectionByConnID",
+     "NewControlConnection",
+     "RegisterControlConnection",
+     "getControlConnectionByConnID",
+     "getConnectionByConnID",
+     "NewControlConnection",
+     "RegisterControlConnection",
+     "authHandler.HandleHandshake",
+     "sendHandshakeResponse",
+     "clientRegistry.DropStaleIndex",
+     "sendHandshakeResponse",
+     "clientRegistry.GetByClientID",
+     "clientRegistry.Remove",
+     "clientRegistry.UpdateAuth",
+     "getConnectionByConnID",
      "getConnectionByConnID"] := by decide
 
-theorem skel_removeConnectionLocked : Skel.C03_removeConnectionLocked = ["Stream.Close", "delete", "delete"] := by decide
+/-- registry: removal closes the stream, drops every index entry of the connection object (`unindexLocked`), then the
+connection; `UpdateAuth` unindexes before indexing under the new id; `DropStaleIndex` deletes under the lock -/
+theorem skel_registry :
+    Skel.C03_removeConnectionLocked = ["Stream.Close", "unindexLocked", "delete"] ∧
+    Skel.C03_UpdateAuth = ["mu.Lock", "mu.Unlock", "unindexLocked"] ∧
+    Skel.C03_unindexLocked = ["delete"] ∧ Skel.C03_DropStaleIndex = ["mu.Lock", "mu.Unlock", "delete"] := by decide
 theorem skel_RecordFailure : Skel.RecordFailure = ["cleanupOldFailures", "banIP", "banIP"] := by decide
 
 /-- the decision expressions of `HandleHandshake`, as written in the source -/
@@ -88,6 +106,7 @@ theorem cond_handleHandshake : Cond.handleHandshake =
      "enforcedProtocol == \"\"",
      "conn.RawConn != nil",
      "err != nil",
+     "concreteConn, ok := clientConn.(*ControlConnection); ok",
      "err := s.sendHandshakeResponse(clientConn, resp); err != nil",
      "isControlConnection && clientConn.IsAuthenticated() && clientConn.GetClientID() > 0",
      "oldConn != nil && oldConn.GetConnID() != clientConn.GetConnID()",
@@ -103,14 +122,15 @@ theorem cond_handleHandshake : Cond.handleHandshake =
      "isControlConnection && clientConn.IsAuthenticated() && clientConn.GetClientID() > 0"] := by decide
 
 theorem cond_registry : Cond.UpdateAuth = ["!exists"] ∧
-    Cond.removeConnectionLocked = ["conn == nil", "conn.Stream != nil", "conn.Authenticated && conn.ClientID > 0",
-      "existingConn, exists := r.clientIDMap[conn.ClientID]; exists && existingConn.ConnID == conn.ConnID"] := by decide
+    Cond.removeConnectionLocked = ["conn == nil", "conn.Stream != nil"] ∧
+    Cond.unindexLocked = ["indexed == conn"] ∧
+    Cond.DropStaleIndex = ["conn == nil", "indexed == conn && clientID != conn.ClientID"] := by decide
 
 theorem cond_security :
     Cond.RecordFailure = ["!exists", "totalCount >= p.config.PermanentBanAt", "recentFailures >= p.config.MaxFailures"] ∧
-    Cond.IsBanned = ["!exists", "!record.ExpiresAt.IsZero() && time.Now().After(record.ExpiresAt)"] ∧
+    Cond.IsBanned = ["!exists", "record.isExpired()"] ∧
     Cond.IsAllowed = ["m.isInList(ip, m.whitelist)", "record := m.findInList(ip, m.blacklist); record != nil",
-      "!record.ExpiresAt.IsZero() && time.Now().After(record.ExpiresAt)"] ∧
+      "record.isExpired()"] ∧
     Cond.VerifyResponse = ["err != nil"] := by decide
 
 /-- side conditions on the regenerated constants used by `recordFailure` -/
@@ -261,6 +281,14 @@ theorem C03_accepted_step (s : Srv) (e : Event) :
       pend ((step s e).1.ctl c) = none :=
   (stepCore_spec s e).acc
 
+/-- **registry_sound.**  After EVERY history, if the client index maps client `y` to connection `c`
+(`GetControlConnectionByClientID(y) = c`) then `c` is authenticated as `y` right now.  (True of the current code
+because index entries are dropped by identity: `DropStaleIndex` right after the handler returns, `unindexLocked` in
+`UpdateAuth` and `removeConnectionLocked`; it was false before that repair — C07's finding.) -/
+theorem C03_registry_sound (h : Hdr) (es : List Event) (y c : Nat)
+    (hr : (runState h.init es).reg y = some c) : pairOf ((runState h.init es).ctl c) = (true, some y) :=
+  reachable_sound h.init (by intro y c hh; simp [Hdr.init, Srv.init] at hh) es y c hr
+
 /-! ## Non-vacuity -/
 
 def hdr2 : Hdr := ⟨1000, [0, 1], 2, 20⟩
@@ -301,10 +329,10 @@ example : holds hdr2 [.ban 0, .fc 0 .control]
     [⟨.na, ⟨[none, none], [none, none], [true, false], [false, false]⟩⟩,
      ⟨.new 2, ⟨[some ⟨true, some 2, none⟩, none], [none, none, some 0], [true, false], [false, false]⟩⟩] = false := by decide
 
-/-- the model reproduces the stale client-index entry after a valid re-authentication under another id
-(C07's finding; not a C03 violation: the connection did prove A's key earlier) -/
+/-- after a valid re-authentication under another id the old index entry is gone (C07's repair: `DropStaleIndex`
+right after the handler returns, `unindexLocked` in `UpdateAuth`) -/
 example : ((run hdr2.init [.hs 0 .control (.idx 0) .none, .hs 0 .control (.idx 0) (.hmac 0 (.last 0)),
     .hs 0 .control (.idx 1) .none, .hs 0 .control (.idx 1) (.hmac 1 (.last 0))]).map (·.st.lookups)).getLast? =
-    some [some 0, some 0] := by decide
+    some [none, some 0] := by decide
 
 end Tunnox.C03
